@@ -786,8 +786,12 @@ attr_dict_new(struct kdump_shared *shared)
 
 		parent = dict->global_attrs[tmpl->parent_key];
 		attr = new_attr(dict, parent, tmpl);
-		if (!attr)
+		if (!attr) {
+			if (dict->global_attrs[GKI_dir_root])
+				dealloc_attr(dict->global_attrs[GKI_dir_root]);
+			free(dict);
 			return NULL;
+		}
 		dict->global_attrs[i] = attr;
 
 		if (i >= GKI_static_first && i <= GKI_static_last) {
